@@ -1,6 +1,7 @@
 package rules
 
 import (
+	"slipcheck/lenflow"
 	"fmt"
 	"go/token"
 	"go/types"
@@ -109,10 +110,27 @@ type lockSets struct {
 	at map[ssa.Instruction]lockState
 }
 
+// locksetNoReturn tells whether a callee never returns normally (set by the rules from the lenflow
+// analyzer); a block that raises does not hand its lock state to its successors.
+var locksetNoReturn func(*ssa.Function) bool
+
 func computeLockSets(fn *ssa.Function, entry lockState) *lockSets {
 	ls := &lockSets{at: map[ssa.Instruction]lockState{}}
 	if len(fn.Blocks) == 0 {
 		return ls
+	}
+	raises := func(b *ssa.BasicBlock) bool {
+		for _, in := range b.Instrs {
+			switch x := in.(type) {
+			case *ssa.Panic:
+				return true
+			case *ssa.Call:
+				if g := x.Call.StaticCallee(); g != nil && locksetNoReturn != nil && locksetNoReturn(g) {
+					return true
+				}
+			}
+		}
+		return false
 	}
 	in := map[*ssa.BasicBlock]lockState{fn.Blocks[0]: entry.clone()}
 	work := []*ssa.BasicBlock{fn.Blocks[0]}
@@ -133,6 +151,9 @@ func computeLockSets(fn *ssa.Function, entry lockState) *lockSets {
 					}
 				}
 			}
+		}
+		if raises(b) {
+			continue
 		}
 		for _, s := range b.Succs {
 			old, ok := in[s]
@@ -205,6 +226,9 @@ func initOnly(fn *ssa.Function, callers map[*ssa.Function][]*ssa.Call, valueUse 
 // the listed fields must happen with the mutex field of the same base held.
 func guardedBy(c *core.Ctx, r *core.Reporter, rule, pkg, typ string, fields []string, mutex string, text string, floor int) {
 	r.Rule(rule, text, floor)
+	if locksetNoReturn == nil {
+		locksetNoReturn = lenflow.New(c).NoReturn
+	}
 	fieldSet := map[string]bool{}
 	for _, f := range fields {
 		fieldSet[f] = true
